@@ -9,6 +9,7 @@ import (
 
 	"cosmossdk.io/math"
 	sdk "github.com/cosmos/cosmos-sdk/types"
+	"github.com/cosmos/cosmos-sdk/types/query"
 	"pgregory.net/rapid"
 
 	opchildtypes "github.com/initia-labs/OPinit/x/opchild/types"
@@ -36,8 +37,15 @@ func l1Queries(e *henv.L1, maxID uint64, tuples []wd) string {
 	var sb strings.Builder
 	q := e.Q
 	ctx := e.Ctx
-	res, err := q.Bridges(ctx, &ophosttypes.QueryBridgesRequest{})
-	fmt.Fprintf(&sb, "bridges=%v/%v\n", res, err)
+	var bkey []byte
+	for page := 0; ; page++ {
+		res, err := q.Bridges(ctx, &ophosttypes.QueryBridgesRequest{Pagination: &query.PageRequest{Key: bkey, Limit: 60}})
+		fmt.Fprintf(&sb, "bridges page %d=%v/%v\n", page, res.GetBridges(), err)
+		if err != nil || res.Pagination == nil || len(res.Pagination.NextKey) == 0 {
+			break
+		}
+		bkey = res.Pagination.NextKey
+	}
 	p, err := q.Params(ctx, &ophosttypes.QueryParamsRequest{})
 	fmt.Fprintf(&sb, "params=%v/%v\n", p, err)
 	for id := uint64(1); id <= maxID+1; id++ {
@@ -45,14 +53,29 @@ func l1Queries(e *henv.L1, maxID uint64, tuples []wd) string {
 		fmt.Fprintf(&sb, "%d bridge=%v/%v\n", id, b, err)
 		s, err := q.NextL1Sequence(ctx, &ophosttypes.QueryNextL1SequenceRequest{BridgeId: id})
 		fmt.Fprintf(&sb, "%d seq=%v/%v\n", id, s, err)
-		tp, err := q.TokenPairs(ctx, &ophosttypes.QueryTokenPairsRequest{BridgeId: id})
-		fmt.Fprintf(&sb, "%d pairs=%v/%v\n", id, tp, err)
+		// paginated lists are walked to their end (a default page holds 100 entries)
+		var key []byte
+		for page := 0; ; page++ {
+			tp, err := q.TokenPairs(ctx, &ophosttypes.QueryTokenPairsRequest{BridgeId: id, Pagination: &query.PageRequest{Key: key, Limit: 60}})
+			fmt.Fprintf(&sb, "%d pairs page %d=%v/%v\n", id, page, tp.GetTokenPairs(), err)
+			if err != nil || tp.Pagination == nil || len(tp.Pagination.NextKey) == 0 {
+				break
+			}
+			key = tp.Pagination.NextKey
+		}
 		outs, err := queryAllOutputs(e, id)
 		fmt.Fprintf(&sb, "%d outputs=%v/%v\n", id, outs, err)
 		lf, err := q.LastFinalizedOutput(ctx, &ophosttypes.QueryLastFinalizedOutputRequest{BridgeId: id})
 		fmt.Fprintf(&sb, "%d lastfinal=%v/%v\n", id, lf, err)
-		bi, err := q.BatchInfos(ctx, &ophosttypes.QueryBatchInfosRequest{BridgeId: id})
-		fmt.Fprintf(&sb, "%d batchinfos=%v/%v\n", id, bi, err)
+		key = nil
+		for page := 0; ; page++ {
+			bi, err := q.BatchInfos(ctx, &ophosttypes.QueryBatchInfosRequest{BridgeId: id, Pagination: &query.PageRequest{Key: key, Limit: 60}})
+			fmt.Fprintf(&sb, "%d batchinfos page %d=%v/%v\n", id, page, bi.GetBatchInfos(), err)
+			if err != nil || bi.Pagination == nil || len(bi.Pagination.NextKey) == 0 {
+				break
+			}
+			key = bi.Pagination.NextKey
+		}
 		for _, t := range tuples {
 			h := t.leaf()
 			cl, err := q.Claimed(ctx, &ophosttypes.QueryClaimedRequest{BridgeId: id, WithdrawalHash: h[:]})
@@ -93,7 +116,21 @@ func TestC16L1(t *testing.T) {
 		w := newL1World(rt, l1Cfg{weights: c16Weights, maxBridges: 4, withFee: true, badCfgProb: 5, manyBridges: true, periods: []time.Duration{time.Second, time.Minute, time.Hour}})
 		w.opCreate(rt, true)
 		deleted, batchUpd, claims := 0, 0, 0
+		bulkAt := -1
+		if rapid.IntRange(0, 19).Draw(rt, "bulk") == 0 {
+			bulkAt = rapid.IntRange(0, 30).Draw(rt, "bulkAt")
+		}
 		repeatSteps(rt, 40, func(i int) {
+			if i == bulkAt && len(w.ids) > 0 {
+				switch rapid.IntRange(0, 1).Draw(rt, "bulkKind") {
+				case 0:
+					w.bulkDenoms(rt, w.bridges[w.ids[0]], rapid.IntRange(101, 140).Draw(rt, "bulkN"))
+					c.Class("L1/bridge-with-more-than-100-token-pairs")
+				case 1:
+					w.bulkPropose(rt, w.bridges[w.ids[0]], rapid.IntRange(101, 140).Draw(rt, "bulkN"))
+					c.Class("L1/bridge-with-more-than-100-outputs")
+				}
+			}
 			st := w.step(rt)
 			if st.Res.OK() {
 				switch st.Kind {
@@ -284,9 +321,52 @@ func TestC16L2(t *testing.T) {
 				}
 			}
 		})
+		// one history in four ends with a replacement at capacity inside the last block: the maximum is lowered to
+		// the number of stored validators, one of them is removed and another operator with a fresh key is offered
+		// (whatever the chain answers - the export is then taken in the middle of that block)
+		replaceAtCap := rapid.IntRange(0, 3).Draw(rt, "replaceAtCap") == 0
+		if replaceAtCap {
+			pos, all, _ := l2.StateValidators()
+			if len(pos) >= 2 {
+				p, _ := l2.K.GetParams(l2.Ctx)
+				p.MaxValidators = uint32(len(all))
+				r := l2.Deliver(opchildtypes.NewMsgUpdateParams(l2.Authority, &p))
+				w.logf("max validators := %d -> %v", len(all), r.Err)
+				stored := map[string]bool{}
+				for _, v := range all {
+					stored[v.OperatorAddress] = true
+				}
+				var leaving *opchildtypes.Validator
+				for i := range all {
+					if all[i].ConsPower > 0 {
+						leaving = &all[i]
+						break
+					}
+				}
+				if leaving != nil {
+					m, _ := opchildtypes.NewMsgRemoveValidator(l2.Authority, leaving.OperatorAddress)
+					r := l2.Deliver(m)
+					w.logf("remove %s -> %v", leaving.OperatorAddress, r.Err)
+					if r.OK() {
+						removed++
+					}
+				}
+				for _, op := range w.ops {
+					if !stored[op.String()] {
+						m, _ := opchildtypes.NewMsgAddValidator("replacement", l2.Authority, op.String(), henv.MakeConsKey("c16-replacement").PubKey())
+						r := l2.Deliver(m)
+						w.logf("add replacement %s -> %v", op.String(), r.Err)
+						break
+					}
+				}
+				c.Class("L2/replacement-at-capacity-before-a-mid-block-export")
+			} else {
+				replaceAtCap = false
+			}
+		}
 		// usually genesis is exported between blocks; a state in the middle of a block (validators marked for
 		// removal but still bonded) is reachable too
-		if midBlock := rapid.IntRange(0, 3).Draw(rt, "midBlockExport") == 0; !midBlock {
+		if midBlock := replaceAtCap || rapid.IntRange(0, 3).Draw(rt, "midBlockExport") == 0; !midBlock {
 			updates, err := l2.EndBlock()
 			if err != nil {
 				fail("EndBlock: %v", err)
